@@ -8,8 +8,9 @@ streams
          view with the Lean Spec oracle (`resolveSpec`, `numberOf`, `identOf`).
          Exhaustive up to symmetry for short histories, random beyond (85% well-formed, 15% malformed:
          blank labels, duplicate labels, re-used slots, labels without object, explicit node=).
-  doc9 : generated LaTeX documents (labels on sections, subsections, equations, enumerate items,
-         figures, tables, theorems; \\ref/\\pageref before, after and inside the labelled object;
+  doc9 : generated LaTeX documents (labels on sections, subsections, equations, the rows of eqnarray
+         environments (with eqnarray* / figure* / table* siblings in either order), enumerate items,
+         figures, tables, theorems; label names of one or several words, with punctuation, `_`, upper case; \\ref/\\pageref before, after and inside the labelled object;
          dangling references; itemize items as unlabelled numbered objects, footnotes as reference sites) parsed by the
          real interpreter; each document comes with variants in which all references are moved
          before / after / inside their labelled objects.  The event history of the document goes to the
@@ -37,6 +38,7 @@ TECHNIQUE = 'Lean 4 proof (invariant over operation histories, induction on the 
 TRUSTED = ['the set of macros that call refstepcounter and the order of their events in a document is tied by the doc9 stream only',
            'bibliography keys (bibitem.invoke / cite.bibitems) and rendered reference text are checked at document level only']
 ASSUMPTIONS = ['labels pairwise distinct (NF-doc); every \\ref node parses its argument once',
+               'every generated document is parsed with the per-class caches of plasTeX (Macro.locals) cleared, i.e. as in a fresh interpreter; carry-over between documents is C17',
                'labels are written inside a numbered object before any nested numbered object, or directly after a sectioning command',
                'a generated id (a0000000001 ...) never equals a label written in a document']
 RULE = ('lbl: canonical (symmetry-reduced) histories enumerated exhaustively up to the stated length plus seeded random histories; doc9: documents of the '
@@ -51,14 +53,19 @@ logging.disable(logging.CRITICAL)
 
 # ---------------------------------------------------------------- names
 
-_FORMS = ['lab%d', 'sec:%d', 'eq.%d', 'it-%d', 'Fig_%dX']
+_FORMS = ['lab%d', 'sec:%d', 'eq.%d', 'it-%d', 'Fig_%dX', 'sec basic facts %d']     # the last: a name of several words
 
 
 def lname(k):
-    return _FORMS[k % 5] % k
+    return _FORMS[k % 6] % k
 
 
-_LNUM = re.compile(r'^(?:lab|sec:|eq\.|it-|Fig_)(\d+)X?$')
+_LNUM = re.compile(r'^(?:lab|sec:|eq\.|it-|Fig_|sec basic facts )(\d+)X?$')
+
+
+def enc(name):
+    """label names inside the space separated observation strings"""
+    return str(name).replace(' ', '\u2423')
 
 
 def lnum(s):
@@ -205,7 +212,11 @@ def corpus():
         Case('lbl', 'N1 R1.0:1 R1.1:2 L1 L2', {'seed': 6}, 'corpus'),             # two labels on one object, slots patched by id
         Case('lbl', 'R1.0:1 N1 L1 R1.0:2 N2 L2', {'seed': 7}, 'corpus'),          # re-used slot (malformed)
         Case('lbl', 'R1.0:0 L0 N1 L0@1 R2.0:1 L1@1', {'seed': 8}, 'corpus'),      # blank labels
-    ] + doc_cases(12345, False) + doc_cases(777, True)
+        Case('lbl', 'R1.0:5 R2.0:5 N1 L5 R3.0:5', {'seed': 6}, 'corpus'),             # a name of several words (style chosen by the seed)
+        Case('lbl', 'R1.0:5 R2.0:5 N1 L5 R3.0:5', {'seed': 7}, 'corpus'),
+        Case('lbl', 'R1.0:5 R2.0:5 N1 L5 R3.0:5', {'seed': 9}, 'corpus'),
+    ] + doc_cases(12345, False) + doc_cases(777, True) + doc_cases(23, False) + doc_cases(42, False)
+    # seeds 23, 42: eqnarray* before an eqnarray whose later rows carry labels; labels of several words
 
 
 def _refd_and_labelled(line):
@@ -248,6 +259,10 @@ def canon_exc(e):
     return 'err:' + n if n in ('KeyError', 'AttributeError', 'TypeError', 'IndexError', 'ValueError') else 'err:other:' + n
 
 
+# spellings of label number k at component level (the text goes to Context.label / Context.ref unchanged): names of
+# several words, runs of blanks and tabs inside the name, punctuation, upper case, non-ASCII, bare numbers
+LBL_STYLES = ['lab%d', 'sec:%d', 'eq.%d', 'it-%d', 'Fig_%dX', 'sec basic facts %d', 'two  blanks  %d', 'tab\there %d',
+              '%d', 'Th\u00e9or\u00e8me-%d', 'a/b.c,%d;', 'UPPER%dCase', 'x %d y', 'n-%d']
 PADS = ['', '', '', ' ', '  ', '\t', '\n']
 BLANKS = ['', ' ', '\t ', '\n']
 
@@ -265,6 +280,16 @@ def run_lbl(line, seed):
     rng = random.Random(seed)
     ops = parse_ops(line)
     stubs, refobjs = {}, {}
+    style = rng.choice(LBL_STYLES) if seed else None      # seed 0 (exhaustive part): the document spellings
+    names = {}
+    for op in ops:
+        l = op[1] if op[0] == 'L' else op[3] if op[0] == 'R' else 0
+        if l:
+            names[l] = (style % l) if style else lname(l)
+    number_of = {v: k for k, v in names.items()}
+
+    def lnum(x):
+        return number_of.get(x) if isinstance(x, str) else None
 
     def stub(n):
         if n not in stubs:
@@ -279,7 +304,7 @@ def run_lbl(line, seed):
     def lstr(l):
         if l == 0:
             return rng.choice(BLANKS)
-        return rng.choice(PADS) + lname(l) + rng.choice(PADS)
+        return rng.choice(PADS) + names[l] + rng.choice(PADS)
     keys, nodes = [], set()
     for op in ops:
         if op[0] == 'N':
@@ -344,7 +369,7 @@ def view_of_state(full, line):
         if o[0] == 'R' and o[3] != 0:
             k = '%d.%d' % (o[1], o[2])
             v = di.get(k, '-')
-            I.append(k + '=' + ('o' + v[1:] if v.startswith('n') else 'none' if v.startswith('p') and v != 'p?' else v))
+            I.append(k + '=' + ('o' + v[1:] if v.startswith('n') else 'none' if v.startswith('p') else v))
             W.append(k + '=' + dw.get(k, '-'))
     return 'I %s | W %s | D %s' % (' '.join(I), ' '.join(W), secs.get('D', ''))
 
@@ -368,7 +393,12 @@ class DocGen:
             self.early_label = self.newlabel(rng, 1.0)
         nb = rng.randint(2, 7)
         for _ in range(nb):
-            self.blocks.append(self.gen_block(rng))
+            b = self.gen_block(rng)
+            if b[0] == 'eqn' and rng.random() < 0.5:
+                # the starred and the numbered form of an environment in one document, in either order
+                self.blocks.append(('eqn', not b[1], [(None if not b[1] else self.newlabel(rng, 0.7), rng.random() < 0.3)
+                                                      for _ in range(rng.randint(1, 3))]))
+            self.blocks.append(b)
         if not any(b[0] == 'sec' for b in self.blocks):
             self.blocks.insert(0, ('sec', 1, rng.choice([1, 2]), self.newlabel(rng, 1.0), False))
         self.labels = []
@@ -398,12 +428,18 @@ class DocGen:
             return ('para', rng.random() < 0.25)
         if r < 0.42:
             return ('sec', rng.choice([1, 1, 2]), rng.choice([1, 2, 2]), self.newlabel(rng, 0.85), rng.random() < 0.15)
-        if r < 0.57:
+        if r < 0.52:
             return ('eq', self.newlabel(rng, 0.85), rng.random() < 0.4)
-        if r < 0.72:
+        if r < 0.62:
+            # a multi-line display: numbered (every row is an object that can carry a label) or starred
+            star = rng.random() < 0.35
+            rows = [(None if star else self.newlabel(rng, 0.7), rng.random() < 0.3) for _ in range(rng.randint(1, 4))]
+            return ('eqn', star, rows)
+        if r < 0.74:
             return self.gen_list(rng, 1)
         if r < 0.86:
-            return ('float', rng.choice(['figure', 'table']), self.newlabel(rng, 0.85), rng.random() < 0.5)
+            return ('float', rng.choice(['figure', 'table', 'figure', 'table', 'figure*', 'table*']), self.newlabel(rng, 0.85),
+                    rng.random() < 0.5)
         return ('thm', rng.choice(['thm', 'lem']), self.newlabel(rng, 0.85), rng.random() < 0.3,
                 self.newlabel(rng, 0.8) if rng.random() < 0.3 else False)
 
@@ -537,13 +573,32 @@ class DocGen:
                 self.r_list(nested, depth + 1)
         self.out.append('\\end{%s}\n\n' % env)
 
+    def r_eqn(self, b):
+        _, star, rows = b
+        self.out.append('\\begin{eqnarray%s}\n' % ('*' if star else ''))
+        for i, (lab, insite) in enumerate(rows):
+            if not star:
+                self.cnt['eq'] += 1
+                # row 1 is numbered by the environment, each `\\\\` numbers the row it opens
+                n = self.obj('eqnarray' if i == 0 else 'ArrayRow', '%d' % self.cnt['eq'])
+                self.ev.append(('V', n, n))
+            self.out.append(' a_%d &=& b ' % i)
+            self.do_label(lab)
+            if insite:
+                self.out.append(' ')
+                self.do_site()
+            self.out.append(' \\\\\n' if i < len(rows) - 1 else '\n')
+        self.out.append('\\end{eqnarray%s}\nAfter ' % ('*' if star else ''))
+        self.do_site()
+        self.out.append('\n\n')
+
     def r_float(self, b):
         _, env, lab, incap = b
-        self.cnt[env] += 1
+        self.cnt[env.rstrip('*')] += 1
         self.out.append('\\begin{%s}\nfloat body ' % env)
         self.do_site()
         self.out.append('\n\\caption{Caption ')
-        n = self.obj('caption', '%d' % self.cnt[env])
+        n = self.obj('caption', '%d' % self.cnt[env.rstrip('*')])
         if incap:
             self.do_label(lab)
         self.out.append(' ')
@@ -614,7 +669,36 @@ def doc_cases(seed, malformed):
     return out
 
 
-OBJ_KINDS = {'section', 'subsection', 'equation', 'item', 'caption', 'thmenv'}
+OBJ_KINDS = {'section', 'subsection', 'equation', 'item', 'caption', 'thmenv', 'eqnarray'}
+
+
+def is_object(n):
+    """the numbered objects of the grammar; of a numbered eqnarray the environment itself carries the number of
+    its first row, every later row is an object of its own (rows of eqnarray* are not numbered)"""
+    if n.nodeName in OBJ_KINDS:
+        return True
+    if n.nodeName == 'ArrayRow':
+        p = n.parentNode
+        if p is not None and p.nodeName == 'eqnarray':
+            rows = [c for c in p.childNodes if c.nodeName == 'ArrayRow']
+            return bool(rows) and rows[0] is not n
+    return False
+
+
+def reset_class_caches():
+    """every document starts like a fresh interpreter as far as the per-class caches of plasTeX are concerned
+    (`Macro.locals` stores its table on the class): otherwise the order in which earlier documents of this
+    process happened to use related environments would decide what a later document exercises"""
+    import plasTeX
+    stack, seen = [plasTeX.Macro], set()
+    while stack:
+        c = stack.pop()
+        if c in seen:
+            continue
+        seen.add(c)
+        if '@locals' in vars(c):
+            delattr(c, '@locals')
+        stack.extend(c.__subclasses__())
 
 
 def walk(node, seen):
@@ -638,6 +722,7 @@ def walk(node, seen):
 def parse_tex(tex_src):
     from plasTeX.TeX import TeX
     from plasTeX import TeXDocument
+    reset_class_caches()
     doc = TeXDocument()
     tex = TeX(doc)
     tex.input(tex_src)
@@ -662,7 +747,7 @@ def run_doc9(case):
     ctx = doc.context
     objs, refs = [], []
     for n in walk(doc, set()):
-        if n.nodeName in OBJ_KINDS:
+        if is_object(n):
             objs.append(n)
         elif n.nodeName in ('ref', 'pageref'):
             refs.append(n)
@@ -689,14 +774,14 @@ def run_doc9(case):
     for r in refs:
         lab = r.attributes['label']
         v = r.idref.get('label')
-        key = lab if lab.strip() else '~'
+        key = enc(lab) if lab.strip() else '~'
         I.append('%s>%s' % (key, target(v, lab)))
         W.append('%s>%s' % (key, numstr(v) if v is not None else '-'))
-    D = ['%d=%s' % (i + 1, getattr(o, '@id')) for i, o in enumerate(objs)
-         if lnum(getattr(o, '@id', None)) is not None]
+    D = ['%d=%s' % (i + 1, enc(getattr(o, '@id'))) for i, o in enumerate(objs)
+         if isinstance(getattr(o, '@id', None), str) and not getattr(o, '@hasgenid', False)]
     N = ['%d=%s' % (i + 1, numstr(o)) for i, o in enumerate(objs)]
-    L = sorted('%s=%s' % (k, target(v, k)) for k, v in ctx.labels.items())
-    P = sorted('%s=%d' % (k, len(v)) for k, v in ctx.refs.items())
+    L = sorted('%s=%s' % (enc(k), target(v, k)) for k, v in ctx.labels.items())
+    P = sorted('%s=%d' % (enc(k), len(v)) for k, v in ctx.refs.items())
     C = target(ctx.currentlabel, '')[1:] if ctx.currentlabel is not None else '-'
     return 'I %s | W %s | D %s | L %s | P %s | C %s | N %s' % (' '.join(sorted(I)), ' '.join(sorted(W)), ' '.join(D),
                                                                ' '.join(L), ' '.join(P), C, ' '.join(N))
@@ -712,20 +797,20 @@ def doc_view(case, s, nums, full):
         k, v = w.split('=')
         r, sl = k.split('.')
         l = lab_of[(int(r), int(sl))]
-        key = lname(l) if l else '~'
+        key = enc(lname(l)) if l else '~'
         v = v if v == 'none' else 'o' + v[1:] if v[0] == 'n' else 'none' if v[0] == 'p' else v
         I.append('%s>%s' % (key, v))
     for w in secs.get('W', '').split():
         k, v = w.split('=')
         r, sl = k.split('.')
         l = lab_of[(int(r), int(sl))]
-        key = lname(l) if l else '~'
+        key = enc(lname(l)) if l else '~'
         W.append('%s>%s' % (key, nums.get(int(v), '?') if v != '-' else '-'))
-    D = ['%s=%s' % (w.split('=')[0], lname(int(w.split('=')[1]))) for w in secs.get('D', '').split()]
+    D = ['%s=%s' % (w.split('=')[0], enc(lname(int(w.split('=')[1])))) for w in secs.get('D', '').split()]
     res = 'I %s | W %s | D %s' % (' '.join(sorted(I)), ' '.join(sorted(W)), ' '.join(D))
     if full:
-        L = sorted('%s=o%s' % (lname(int(w.split('=')[0])), w.split('=')[1]) for w in secs.get('L', '').split())
-        P = sorted('%s=%d' % (lname(int(w.split('=')[0])), len(w.split('=')[1].split(','))) for w in secs.get('P', '').split())
+        L = sorted('%s=o%s' % (enc(lname(int(w.split('=')[0]))), w.split('=')[1]) for w in secs.get('L', '').split())
+        P = sorted('%s=%d' % (enc(lname(int(w.split('=')[0]))), len(w.split('=')[1].split(','))) for w in secs.get('P', '').split())
         res += ' | L %s | P %s | C %s' % (' '.join(L), ' '.join(P), secs.get('C', '').strip())
     return res
 
@@ -916,7 +1001,7 @@ def render_refs(case):
         want = []
         def in_math(n):
             while n is not None:
-                if n.nodeName in ('equation', 'math', 'displaymath'):
+                if n.nodeName in ('equation', 'math', 'displaymath', 'eqnarray', 'eqnarray*'):
                     return True
                 n = n.parentNode
             return False
